@@ -16,8 +16,14 @@ pub fn describe(rep: &Report) {
 }
 
 pub fn sections(cfg: &RunCfg) -> Vec<Box<dyn AnySection>> {
+    let quick = !cfg.thorough();
     param_sets(cfg)
         .into_iter()
+        // the exact-phase oracle costs ~10x a plain transition: in the quick tier the depth-2 closure is kept for three sets only
+        .map(|(name, spec, depth, abs)| {
+            let deep = ["bfv_p1", "bgv_p5_t5", "bgv_p12_short"].contains(&name.as_str());
+            (name, spec, if quick && !deep { 1 } else { depth }, abs)
+        })
         .map(|(name, spec, depth, abs)| {
             Box::new(E2Section {
                 name,
